@@ -812,6 +812,10 @@ def uncompress_dict(source: str) -> str:
         if pos < len(vyxal.dictionary.small_dictionary):
             ret += vyxal.dictionary.small_dictionary[pos]
 
+    if escaped:
+        # the string ended in a backslash: it is a backslash
+        ret += "\\"
+
     return ret
 
 
